@@ -49,12 +49,16 @@ class ScriptSpawn(SpawnBase):
     def snap(self):
         return (self._before.getvalue(), self._buffer.getvalue())
 
+    def positions(self):
+        """Stream positions of the two buffers (the code uses tell() as 'length'): part of the state."""
+        return (self._before.tell(), self._buffer.tell())
+
     def aliased(self):
         """Do the two buffers share one object?  (Part of the state: a restore into two
         independent objects would silently repair such a bug.)"""
         return self._before is self._buffer
 
-    def restore(self, bef, buf, aliased=False):
+    def restore(self, bef, buf, aliased=False, positions=None):
         self._before = self.buffer_type()
         self._before.write(bef)
         if aliased:
@@ -62,3 +66,6 @@ class ScriptSpawn(SpawnBase):
         else:
             self._buffer = self.buffer_type()
             self._buffer.write(buf)
+        if positions is not None:
+            self._before.seek(positions[0])
+            self._buffer.seek(positions[1])
